@@ -1,7 +1,7 @@
 """C16 - start/end/duration of events, todos (and journals) obey the RFC after any edit history.
 
 E-hist: explicit-state search on real Event / Todo / Journal objects.  Operations: the start, end, DTSTART,
-DTEND|DUE and DURATION setters (values: two dates, two floating, two UTC, two zoned date-times, None, one wrongly typed
+DTEND|DUE and DURATION setters (values: two dates, two floating, two UTC, two zoned date-times around a DST change, one dateutil-zoned and one fixed-offset date-time, None, one wrongly typed
 argument), the deleters, and add() of the same names.  A state is the canonical content of the three stored
 properties; the object is rebuilt by replaying the history.
   * setter/deleter-only histories: searched to FIXPOINT (complete reachability), invariant "at most one of
@@ -29,6 +29,9 @@ VALS = {
     "u1": datetime(2024, 5, 1, 10, 0, tzinfo=timezone.utc), "u2": datetime(2024, 5, 2, 12, 30, tzinfo=timezone.utc),
     # zoned values around the 2024-03-31 02:00 DST change: z1 + P1D / P1DT2H crosses it (wall-clock arithmetic, RFC 5545 3.3.6)
     "z1": datetime(2024, 3, 30, 10, 0, tzinfo=BERLIN), "z2": datetime(2024, 3, 31, 12, 30, tzinfo=BERLIN),
+    # a third tzinfo implementation (dateutil, wall-clock arithmetic) and a fixed offset without zone id
+    "du": datetime(2024, 10, 26, 10, 0, tzinfo=__import__("dateutil.tz").tz.gettz("Europe/Berlin")),
+    "fx": datetime(2024, 3, 30, 10, 0, tzinfo=timezone(timedelta(hours=5, minutes=30))),
 }
 DURS = {"P0": timedelta(0), "P1D": timedelta(days=1), "PT1H": timedelta(hours=1), "P1DT2H": timedelta(days=1, hours=2)}
 WRONG = {"str": "20240501", "int": 5}
